@@ -43,10 +43,10 @@ SCOPES["thorough"] = SCOPES["quick"] + [
     S(3, 2, 1, 2, 3), S(3, 2, 2, 2, 3), S(3, 2, 2, 3, 2), S(4, 2, 1, 3, 2), S(4, 1, 2, 2, 3), S(6, 1, 1, 2, 3),
     S(4, 2, 2, 3, 3, Self=True),
     S(2, 2, 2, 2, 3, Mode="badid"), S(3, 1, 2, 3, 2, Mode="badid"), S(3, 2, 2, 2, 3, Mode="badlen")]
-THREADS = [1, 2, 4, 16]
+THREADS = [1, 2, 4, 16, 301]       # 301: three OpenMP threads in a process confined to ONE processor (cpuset / batch slot)
 # quick tier: share of the emitted valid inputs replayed at each thread count (a parallel region with 16
 # threads costs ~0.5 ms on the shared machine); the thorough tier replays everything everywhere
-SHARE = {1: 1, 2: 1, 4: 2, 16: 6}
+SHARE = {1: 1, 2: 1, 4: 2, 16: 6, 301: 4}
 SWEEP = list(range(1, 17))
 
 
@@ -71,8 +71,9 @@ def run_worker(arg):
     d = core.scratch("ev_c18_")
     jobf, resf = os.path.join(d, "jobs.json"), os.path.join(d, "res.json")
     json.dump(jobs, open(jobf, "w"))
-    env = dict(os.environ, OMP_NUM_THREADS=str(threads), OMP_WAIT_POLICY="PASSIVE", OPENBLAS_NUM_THREADS="1",
-               NUMEXPR_NUM_THREADS="1", PYTHONPATH="", VERIF_POISON="1")
+    env = dict(os.environ, OMP_NUM_THREADS=str(threads if threads < 100 else threads // 100), OMP_WAIT_POLICY="PASSIVE",
+               OPENBLAS_NUM_THREADS="1", NUMEXPR_NUM_THREADS="1", PYTHONPATH="", VERIF_POISON="1",
+               VERIF_ONE_CPU="1" if threads >= 100 else "0", OMP_DYNAMIC="false")
     p = subprocess.run([core.PY, WORKER, build, jobf, resf], stdout=subprocess.PIPE, stderr=subprocess.PIPE,
                        text=True, env=env, timeout=6000)
     if p.returncode != 0 or not os.path.exists(resf):
